@@ -76,52 +76,102 @@ def keep_mask(case):
 # trainers
 
 
-def build_trainer(case, layer):
+def _da_names(name):
+    """Keyword names of (lr_causal, lr_anti, tc_causal, tc_anti) for a delay-adjusted rule."""
+    if name in ("DelayAdjustedSTDP", "DelayAdjustedMSTDP"):
+        return {"lr_causal": "lr_pos", "lr_anti": "lr_neg", "tc_causal": "tc_pos", "tc_anti": "tc_neg"}
+    # delay-training variants: the t_delta >= 0 term carries lr_neg / tc_neg
+    return {"lr_causal": "lr_neg", "lr_anti": "lr_pos", "tc_causal": "tc_neg", "tc_anti": "tc_pos"}
+
+
+def construct_trainer(case):
+    """The trainer built from its CONSTRUCTOR values (c08.ctor_view): the cell's own, or
+    case['ctor'] when the cell overrides them at registration."""
     name = case["trainer"]
     if name in PAIR_FAMILY:
-        return c08.build_trainer(case, layer)
+        return c08.construct_trainer(case)
     import inferno.functional as F
     import inferno.learn as L
 
-    hp = case["hp"]
-    red = c08.REDUCTIONS[case["reduction"]]
+    cv = c08.ctor_view(case)
+    hp = cv["hp"]
+    red = c08.REDUCTIONS[cv["reduction"]]
     if name == HOMEO:
-        tgt = hp["target"]
-        ctor_target = tgt if isinstance(tgt, float) and hp.get("target_at") == "ctor" else None
-        tr = L.LinearHomeostasis(hp["plasticity"], ctor_target, hp["param"], batch_reduction=red)
-        tr.register_cell("cell", layer.cell)
-        return tr
-    inplace = bool(case.get("inplace", False))
+        if case.get("ctor"):
+            tgt = hp.get("target")
+        else:
+            tgt = hp["target"] if isinstance(hp["target"], float) and hp.get("target_at") == "ctor" else None
+        return L.LinearHomeostasis(hp["plasticity"], tgt, hp["param"], batch_reduction=red)
+    inplace = bool(cv.get("inplace", False))
     lc, la, tc, ta = hp["lr_causal"], hp["lr_anti"], hp["tc_causal"], hp["tc_anti"]
     if name in KERNEL:
         kpost = dict(learning_rate=lc, time_constant=tc)
         kpre = dict(learning_rate=la, time_constant=ta)
         if name == "KernelSTDP":
-            d = case.get("delay")
-            delayed = bool(case.get("delayed", False) if d is None else d.get("delayed", False))
-            tr = L.KernelSTDP(F.exp_stdp_post_kernel, F.exp_stdp_pre_kernel, kpost, kpre,
-                              delayed=delayed, batch_reduction=red, inplace=inplace)
-        else:
-            cls = getattr(L, name)
-            tr = cls(F.exp_stdp_post_kernel, F.exp_stdp_pre_kernel, kpost, kpre,
-                     batch_reduction=red, inplace=inplace)
-    elif name in ("DelayAdjustedSTDP", "DelayAdjustedMSTDP"):
-        tr = getattr(L, name)(lr_pos=lc, lr_neg=la, tc_pos=tc, tc_neg=ta, batch_reduction=red,
-                              inplace=inplace)
-    else:  # delay-training variants: the >= 0 term carries lr_neg / tc_neg
-        tr = getattr(L, name)(lr_neg=lc, lr_pos=la, tc_neg=tc, tc_pos=ta, batch_reduction=red,
-                              inplace=inplace)
-    tr.register_cell("cell", layer.cell)
+            return L.KernelSTDP(F.exp_stdp_post_kernel, F.exp_stdp_pre_kernel, kpost, kpre,
+                                delayed=bool(cv.get("delayed", False)), batch_reduction=red, inplace=inplace)
+        return getattr(L, name)(F.exp_stdp_post_kernel, F.exp_stdp_pre_kernel, kpost, kpre,
+                                batch_reduction=red, inplace=inplace)
+    nm = _da_names(name)
+    return getattr(L, name)(**{nm["lr_causal"]: lc, nm["lr_anti"]: la, nm["tc_causal"]: tc,
+                               nm["tc_anti"]: ta}, batch_reduction=red, inplace=inplace)
+
+
+def override_kwargs(case, fdt=None):
+    """register_cell keyword arguments for the keys the cell overrides."""
+    name = case["trainer"]
+    if name in PAIR_FAMILY:
+        return c08.override_kwargs(case)
+    ov = case.get("override") or []
+    hp = case["hp"]
+    out = {}
+    if "reduction" in ov:
+        out["batch_reduction"] = c08.REDUCTIONS[case["reduction"]]
+    if "inplace" in ov:
+        out["inplace"] = bool(case.get("inplace", False))
+    if "delayed" in ov:
+        out["delayed"] = c08.cell_delayed(case)
+    if name == HOMEO:
+        if "plasticity" in ov:
+            out["plasticity"] = hp["plasticity"]
+        if "param" in ov:
+            out["param"] = hp["param"]
+        if "target" in ov:
+            tgt = hp["target"]
+            if isinstance(tgt, list):
+                _, oshape, _, _ = c08.shapes_of(case)
+                tgt = torch.tensor(tgt, dtype=fdt or torch.get_default_dtype()).reshape(1, *oshape)
+            out["target"] = tgt
+        return out
+    if name in KERNEL:
+        if "lr_causal" in ov or "tc_causal" in ov:
+            out["kernel_post_kwargs"] = dict(learning_rate=hp["lr_causal"], time_constant=hp["tc_causal"])
+        if "lr_anti" in ov or "tc_anti" in ov:
+            out["kernel_pre_kwargs"] = dict(learning_rate=hp["lr_anti"], time_constant=hp["tc_anti"])
+        return out
+    nm = _da_names(name)
+    for k in ("lr_causal", "lr_anti", "tc_causal", "tc_anti"):
+        if k in ov:
+            out[nm[k]] = hp[k]
+    return out
+
+
+def build_trainer(case, layer):
+    tr = construct_trainer(case)
+    tr.register_cell("cell", layer.cell, **override_kwargs(case))
     return tr
 
 
 def homeo_target(case, fdt):
+    """Target handed over at call time (None: the registered / constructor target is used)."""
     hp = case["hp"]
     tgt = hp["target"]
+    if hp.get("target_at") in ("ctor", "register"):
+        return None
     if isinstance(tgt, list):
         _, oshape, _, _ = c08.shapes_of(case)
         return torch.tensor(tgt, dtype=fdt).reshape(1, *oshape)
-    return None if hp.get("target_at") == "ctor" else float(tgt)
+    return float(tgt)
 
 
 def call_trainer(case, trainer, t, fdt):
@@ -184,38 +234,35 @@ def expected_parts(case, posts):
     return None
 
 
-def run_recorded(case, negate_signal=False):
-    """Builds the cell, runs the history and applies every check that holds for any
-    history. Returns a dict with the observations for the metamorphic legs."""
-    if negate_signal:
-        case = dict(case)
-        case["signal"] = [([-x for x in s] if isinstance(s, list) else -s) for s in case["signal"]]
-    torch.manual_seed(0)
-    param = param_of(case)
-    rec = Recorder()
-    with impl("construct"):
-        layer = c08.build_layer(case)
-        conn = layer.connection
-        acc = getattr(conn.updater, param)
-        acc.upperbound(rec.f_up, 1.0e9)
-        acc.lowerbound(rec.f_lo, -1.0e9)
-        trainer = build_trainer(case, layer)
-    shp = param_shape(case)
-    n = int(np.prod(shp))
-    keep = keep_mask(case)
-    tag = case["trainer"] + (f"[{param}]" if case["trainer"] == HOMEO else "")
-    info = {"trainer": case["trainer"], "param": param}
-    state = {"prev": c08._np(getattr(conn, param)), "pos": None, "neg": None, "applied": []}
+class Probe:
+    """Recording half-bounds on the trained parameter of one connection plus every check that
+    holds for any history (routing, applied change; after the run: parts vs documented
+    values, non-negativity, net rule)."""
 
-    def before_update(t):
+    def __init__(self, case, conn, tag=None):
+        self.case, self.conn = case, conn
+        self.param = param_of(case)
+        self.rec = Recorder()
+        self.acc = getattr(conn.updater, self.param)
+        self.acc.upperbound(self.rec.f_up, 1.0e9)
+        self.acc.lowerbound(self.rec.f_lo, -1.0e9)
+        self.shp = param_shape(case)
+        self.keep = keep_mask(case)
+        self.tag = (tag or case["trainer"]) + (f"[{self.param}]" if case["trainer"] == HOMEO else "")
+        self.info = {"trainer": case["trainer"], "param": self.param, "override": bool(case.get("ctor"))}
+        self.prev = c08._np(getattr(conn, self.param))
+        self.pos = self.neg = None
+        self.applied = []
+
+    def before_update(self, t):
         with impl("accumulator parts"):
-            state["pos"], state["neg"] = acc.pos, acc.neg
-        rec.up.clear()
-        rec.lo.clear()
+            self.pos, self.neg = self.acc.pos, self.acc.neg
+        self.rec.up.clear()
+        self.rec.lo.clear()
 
-    def after_update(t):
-        pos, neg = state["pos"], state["neg"]
-        for nm, part, seen in (("upper", pos, rec.up), ("lower", neg, rec.lo)):
+    def after_update(self, t):
+        pos, neg, tag, info, shp = self.pos, self.neg, self.tag, self.info, self.shp
+        for nm, part, seen in (("upper", pos, self.rec.up), ("lower", neg, self.rec.lo)):
             want = 0 if part is None else 1
             check(len(seen) == want, "routing:calls",
                   lambda: f"{tag} update at step {t}: {nm}-bound function called {len(seen)}x, "
@@ -226,57 +273,115 @@ def run_recorded(case, negate_signal=False):
                       lambda: f"{tag} update at step {t}: {nm}-bound function saw {seen[0].tolist()}, "
                               f"the {'potentiating' if nm == 'upper' else 'depressing'} part is {part.tolist()}",
                       info)
-        now = c08._np(getattr(conn, param))
+        now = c08._np(getattr(self.conn, self.param))
         p = np.zeros(shp) if pos is None else np.broadcast_to(pos.detach().to(torch.float64).numpy(), shp)
         q = np.zeros(shp) if neg is None else np.broadcast_to(neg.detach().to(torch.float64).numpy(), shp)
-        want = np.where(keep, (p - q).reshape(-1), 0.0)
-        got = now - state["prev"]
+        want = np.where(self.keep, (p - q).reshape(-1), 0.0)
+        got = now - self.prev
         ok = c08.close(got, want)
         check(bool(ok.all()), "applied:value",
-              lambda: f"{tag} update at step {t}: {param} changed by {got.tolist()}, pos - neg is {want.tolist()}",
+              lambda: f"{tag} update at step {t}: {self.param} changed by {got.tolist()}, pos - neg is {want.tolist()}",
               info)
-        state["applied"].append(want)
-        state["prev"] = now
+        self.applied.append(want)
+        self.prev = now
 
-    posts, obs = c08.drive(case, layer, trainer, param=param, call=call_trainer,
-                           before_update=before_update, after_update=after_update)
-    exp = expected_parts(case, posts)
-    lc, la = (None, None) if case["trainer"] == HOMEO else causal_lr(case)
-    pend_p, pend_d = np.zeros(n), np.zeros(n)
-    calls = []
-    for ob in obs:
-        if ob[0] == "update":
-            pend_p, pend_d = np.zeros(n), np.zeros(n)
-            continue
-        _, t, pos, neg = ob
-        # shapes: a part must broadcast to the trained parameter
-        fp, fn = _bcast(case, pos), _bcast(case, neg)
-        check(fp is not None and fn is not None, "split:shape",
-              lambda: f"{tag} step {t}: parts of {None if pos is None else pos.size} / "
-                      f"{None if neg is None else neg.size} elements do not broadcast to {shp}", info)
-        if exp is not None:
-            pend_p, pend_d = pend_p + exp[0][t], pend_d + exp[1][t]
-            ok = c08.close(fp, pend_p) | ~keep
-            check(bool(ok.all()), "split:ltp-value",
-                  lambda: f"{tag} step {t}: potentiating part {fp.tolist()} != documented {pend_p.tolist()}", info)
-        for nm, part in (("pos", fp), ("neg", fn)):
-            bad = ~(part >= 0)  # also catches NaN
-            check(not bool(bad.any()), "split:negative",
-                  lambda: f"{tag} step {t}: the {'potentiating' if nm == 'pos' else 'depressing'} part has "
-                          f"negative (or NaN) elements: {part.tolist()}",
-                  dict(info, part=nm))
-        if exp is not None:
-            ok = c08.close(fn, pend_d) | ~keep
-            check(bool(ok.all()), "split:ltd-value",
-                  lambda: f"{tag} step {t}: depressing part {fn.tolist()} != documented {pend_d.tolist()}",
-                  dict(info, part="neg"))
-            net = pend_p - pend_d
-            ok = c08.close(fp - fn, net) | ~keep
-            check(bool(ok.all()), "net:value",
-                  lambda: f"{tag} step {t}: pos - neg {(fp - fn).tolist()} != signed rule {net.tolist()}", info)
-        calls.append((t, fp, fn))
-    return {"posts": posts, "calls": calls, "applied": state["applied"], "exp": exp,
-            "final": state["prev"], "lc": lc, "la": la}
+    def evaluate(self, posts, obs):
+        case, tag, info, shp, keep = self.case, self.tag, self.info, self.shp, self.keep
+        n = int(np.prod(shp))
+        exp = expected_parts(case, posts)
+        lc, la = (None, None) if case["trainer"] == HOMEO else causal_lr(case)
+        pend_p, pend_d = np.zeros(n), np.zeros(n)
+        calls = []
+        for ob in obs:
+            if ob[0] == "update":
+                pend_p, pend_d = np.zeros(n), np.zeros(n)
+                continue
+            _, t, pos, neg = ob
+            # shapes: a part must broadcast to the trained parameter
+            fp, fn = _bcast(case, pos), _bcast(case, neg)
+            check(fp is not None and fn is not None, "split:shape",
+                  lambda: f"{tag} step {t}: parts of {None if pos is None else pos.size} / "
+                          f"{None if neg is None else neg.size} elements do not broadcast to {shp}", info)
+            if exp is not None:
+                pend_p, pend_d = pend_p + exp[0][t], pend_d + exp[1][t]
+                ok = c08.close(fp, pend_p) | ~keep
+                check(bool(ok.all()), "split:ltp-value",
+                      lambda: f"{tag} step {t}: potentiating part {fp.tolist()} != documented {pend_p.tolist()}", info)
+            for nm, part in (("pos", fp), ("neg", fn)):
+                bad = ~(part >= 0)  # also catches NaN
+                check(not bool(bad.any()), "split:negative",
+                      lambda: f"{tag} step {t}: the {'potentiating' if nm == 'pos' else 'depressing'} part has "
+                              f"negative (or NaN) elements: {part.tolist()}",
+                      dict(info, part=nm))
+            if exp is not None:
+                ok = c08.close(fn, pend_d) | ~keep
+                check(bool(ok.all()), "split:ltd-value",
+                      lambda: f"{tag} step {t}: depressing part {fn.tolist()} != documented {pend_d.tolist()}",
+                      dict(info, part="neg"))
+                net = pend_p - pend_d
+                ok = c08.close(fp - fn, net) | ~keep
+                check(bool(ok.all()), "net:value",
+                      lambda: f"{tag} step {t}: pos - neg {(fp - fn).tolist()} != signed rule {net.tolist()}", info)
+            calls.append((t, fp, fn))
+        return {"posts": posts, "calls": calls, "applied": self.applied, "exp": exp,
+                "final": self.prev, "lc": lc, "la": la}
+
+
+def run_recorded(case, negate_signal=False):
+    """Builds the cell, runs the history and applies every check that holds for any
+    history. Returns a dict with the observations for the metamorphic legs."""
+    if negate_signal:
+        case = dict(case)
+        case["signal"] = [([-x for x in s] if isinstance(s, list) else -s) for s in case["signal"]]
+    torch.manual_seed(0)
+    with impl("construct"):
+        layer = c08.build_layer(case)
+        probe = Probe(case, layer.connection)
+        trainer = build_trainer(case, layer)
+    posts, obs = c08.drive(case, layer, trainer, param=probe.param, call=call_trainer,
+                           before_update=probe.before_update, after_update=probe.after_update)
+    return probe.evaluate(posts, obs)
+
+
+def run_multi(case):
+    """ONE trainer, two connections onto one neuron group, per-cell overrides: every cell is
+    judged with its own values exactly like a single cell."""
+    torch.manual_seed(0)
+    subs = c08.expand_cells(case)
+    with impl("construct"):
+        scene = c08.Scene(case, subs)
+        probes = [Probe(sub, conn, tag=f"{case['trainer']} cell {'ab'[k]}")
+                  for k, (sub, conn) in enumerate(zip(subs, scene.conns))]
+        if case["trainer"] == HOMEO:
+            tdiff = subs[0]["hp"]["target"] != subs[1]["hp"]["target"]
+            for pr in probes:
+                pr.info["targets_differ"] = bool(tdiff)
+        trainer = construct_trainer(subs[0])
+        fdt = scene.conns[0].weight.dtype
+        for k, (sub, cell) in enumerate(zip(subs, scene.cells)):
+            trainer.register_cell("ab"[k], cell, **override_kwargs(sub, fdt))
+    posts, obs = c08.drive_multi(case, scene, trainer, params=[p.param for p in probes],
+                                 call=call_trainer,
+                                 before_update=lambda j, t: probes[j].before_update(t),
+                                 after_update=lambda j, t: probes[j].after_update(t))
+    both = []
+    for k, (sub, probe) in enumerate(zip(subs, probes)):
+        res = probe.evaluate(posts[k], obs[k])
+        mode_routing(sub, res)
+        both.append(any(np.any(fp > 0) or np.any(fn > 0) for (_, fp, fn) in res["calls"]))
+    diff = c08.cells_differ(subs)
+    cls = [f"trainer={case['trainer']}", "cells=" + ("differ" if diff else "identical")]
+    for k in sorted(set("lr" if d.startswith(("lr_", "plasticity")) else "tc" if d.startswith("tc_") else d
+                        for d in diff)):
+        cls.append("differ:" + k)
+    if case["trainer"] != HOMEO:
+        sg = []
+        for sub in subs:
+            lc, la = causal_lr(sub)
+            sg.append(("+" if lc >= 0 else "-") + ("+" if la >= 0 else "-"))
+        if sg[0] != sg[1]:
+            cls.append("signmodes_differ")
+    return {"nt": bool(all(both) and diff), "cls": cls}
 
 
 def _bcast(case, part):
@@ -349,6 +454,7 @@ def run_split(case):
         cls.append("signal=" + ("persample" if any(isinstance(s, list) for s in case["signal"]) else "scalar"))
     if case.get("f64"):
         cls.append("f64")
+    cls += c08.override_classes(case)
     return {"nt": bool(both), "cls": cls}
 
 
@@ -425,6 +531,7 @@ def run_direction(case):
         cls.append("signs=" + ("+" if lc >= 0 else "-") + ("+" if la >= 0 else "-"))
     else:
         cls.append("homeo=" + case["hp"]["regime"])
+    cls += c08.override_classes(case)
     return {"nt": bool(nt), "cls": cls}
 
 
@@ -443,6 +550,49 @@ def hyper9(draw, trainer):
     return {"lr_causal": draw(st.sampled_from([1, -1])) * draw(st.sampled_from(_LR)),
             "lr_anti": draw(st.sampled_from([-1, 1])) * draw(st.sampled_from(_LR)),
             "tc_causal": draw(st.sampled_from(_TC)), "tc_anti": draw(st.sampled_from(_TC))}
+
+
+def override_groups(trainer):
+    if trainer in PAIR_FAMILY:
+        return c08.override_groups(trainer)
+    if trainer == HOMEO:
+        return [["plasticity"], ["target"], ["param"], ["reduction"]]
+    g = [["lr_causal"], ["lr_anti"], ["tc_causal"], ["tc_anti"], ["reduction"], ["inplace"]]
+    if trainer == "KernelSTDP":
+        g.append(["delayed"])
+    return g
+
+
+def ctor_hyper(trainer):
+    """Strategy for an independent set of constructor hyper-parameters."""
+    if trainer == HOMEO:
+        return st.fixed_dictionaries({
+            "plasticity": st.sampled_from([1.0, 0.5, 0.1, 2.0, -0.5]),
+            "target": st.sampled_from([0.5, 1.0, 2.0, 0.25, 4.0]),
+            "param": st.sampled_from(["weight", "bias", "delay"])})
+    return hyper9(trainer)
+
+
+def maybe_override(draw, case, always=False):
+    """In 2 of 5 cases the trainer is constructed with other hyper-parameters (often another
+    sign mode) and the cell overrides them at registration; documented behaviour follows the
+    cell's values."""
+    if not always and draw(st.integers(0, 4)) < 3:
+        return case
+    trainer = case["trainer"]
+    cv = draw(c08.ctor_values(trainer, ctor_hyper(trainer)))
+    c08.apply_overrides(draw, case, override_groups(trainer), cv)
+    if trainer == HOMEO:
+        hp = case["hp"]
+        if "target" in case["override"]:
+            hp["target_at"] = "register"  # float or per-output tensor handed over at registration
+            if isinstance(cv["hp"]["target"], list):
+                cv["hp"]["target"] = 3.0
+        else:
+            # not overridden: constructor / call-time target exactly as without overrides
+            cv["hp"]["target"] = (hp["target"] if isinstance(hp["target"], float)
+                                  and hp.get("target_at") == "ctor" else None)
+    return case
 
 
 _SPLIT_TRAINERS = ALL + (HOMEO, HOMEO)  # three parameters to cover
@@ -576,7 +726,7 @@ def split_case(draw, tier="quick"):
     case["update"] = ([True] * T if ukind == "every" else [False] * T if ukind == "end"
                       else [draw(st.booleans()) for _ in range(T)])
     case["f64"] = draw(st.integers(0, 9)) == 9
-    return case
+    return maybe_override(draw, case)
 
 
 # modulated rules appear twice: they have the extra scalar / per-sample reward dimension to cover
@@ -645,6 +795,112 @@ def direction_case(draw, tier="quick"):
         _homeo_hp(draw, case, draw(st.sampled_from(["below", "above"])))
         case["called"] = [True] * T
         case["update"] = draw(st.sampled_from([[False] * T, [True] * T]))
+    return maybe_override(draw, case)
+
+
+def _finding_registered(fid: str) -> bool:
+    from ..harness import load_known
+
+    return any(f.get("id") == fid for f in load_known().get("findings", []))
+
+
+@st.composite
+def multi_case(draw, tier="quick"):
+    """Two connections onto one neuron group (Biclique), one trainer, per-cell overrides."""
+    trainer = draw(st.sampled_from(ALL + MODULATED))
+    B = draw(st.sampled_from([2, 1, 3]))
+    case = {"trainer": trainer, "layout": "fanin", "B": B}
+    nout = draw(st.sampled_from([2, 1, 3]))
+    if trainer in DELAY_ADJ or trainer == HOMEO:
+        dkind = "frozen"
+    elif trainer == "MSTDPET":
+        dkind = draw(st.sampled_from(["none", "frozen"]))
+    elif trainer in PAIR_FAMILY or trainer == "KernelSTDP":
+        dkind = draw(st.sampled_from(["none", "frozen", "delayed"]))
+    else:
+        dkind = "none"
+    case["dt"] = draw(st.sampled_from([1.0, 0.5, 2.0]))
+    T = draw(st.integers(2, 7 if tier == "quick" else 12))
+    case["T"] = T
+    groups = override_groups(trainer)
+    cv = draw(c08.ctor_values(trainer, ctor_hyper(trainer)))
+    case["ctor"] = cv
+
+    def spikes(n, p=None):
+        p = p or draw(st.sampled_from([2, 1, 3]))
+        return [[c08._bits(draw, n, p) for _ in range(B)] for _ in range(T)]
+
+    case["post_shared"] = spikes(nout)
+    if trainer == HOMEO:
+        # every rate strictly below every target (silent first and last step, targets >= 1) and a
+        # non-negative documented term for both cells: outside the region of the known finding
+        case["post_shared"][0] = [[0] * nout for _ in range(B)]
+        case["post_shared"][-1] = [[0] * nout for _ in range(B)]
+    same_target = None
+    cells = []
+    for k in range(2):
+        kind = draw(st.sampled_from(["dense", "dense", "direct", "lateral"]))
+        if kind == "lateral" and nout < 2:
+            kind = "dense"
+        cell = ({"conn": "dense", "in_shape": [draw(st.sampled_from([1, 2, 3]))], "out_shape": [nout]}
+                if kind == "dense" else {"conn": kind, "shape": [nout]})
+        if dkind != "none":
+            cell["delay"] = {"max": draw(st.sampled_from([2, 1, 3])),
+                             "steps": draw(st.lists(st.integers(0, 3), min_size=1, max_size=6)),
+                             "delayed": dkind == "delayed" and draw(st.booleans())}
+        else:
+            cell["delay"] = None
+            cell["delayed"] = draw(st.booleans())
+        cell["w0"] = draw(st.sampled_from([[0.5], [0.0], [0.25, 1.0, -0.5]]))
+        cell["mode"] = draw(st.sampled_from(["cumulative", "nearest"]))
+        cell["reduction"] = draw(st.sampled_from(["sum", "mean", "amax"]))
+        cell["inplace"] = draw(st.booleans())
+        if trainer == HOMEO:
+            cell["bias"] = True
+            param = draw(st.sampled_from(["weight", "bias", "delay"]))
+            mag = draw(st.sampled_from([1.0, 0.5, 0.1, 2.0]))
+            cell["hp"] = {"param": param, "plasticity": -mag if param == "delay" else mag,
+                          "regime": "below", "signed": "nonneg", "target_at": "register"}
+            pal = [1.0, 1.5, 2.0, 4.0]
+            tgt = ([draw(st.sampled_from(pal)) for _ in range(nout)] if draw(st.booleans())
+                   else draw(st.sampled_from(pal)))
+            # LinearHomeostasis.forward keeps the FIRST cell's registered target for all later
+            # cells (proposed finding C09-homeostasis-multicell-target): differing registered
+            # targets are generated only once that finding is registered
+            if k == 0:
+                same_target = tgt
+            elif not (_finding_registered("C09-homeostasis-multicell-target") and draw(st.integers(0, 3)) == 3):
+                tgt = same_target
+            cell["hp"]["target"] = tgt
+            c08.cell_from_ctor(draw, cell, [g for g in groups if g != ["target"]], cv)
+            cell["override"] = cell["override"] + ["target"]
+            hp = cell["hp"]
+            if (hp["plasticity"] >= 0) == (hp["param"] == "delay"):
+                # keep the documented signed term >= 0 (behind the known negative-part finding)
+                cell["hp"] = dict(hp, plasticity=-hp["plasticity"])
+                if "plasticity" not in cell["override"]:
+                    cell["override"] = cell["override"] + ["plasticity"]
+        else:
+            cell["hp"] = draw(hyper9(trainer))
+            c08.cell_from_ctor(draw, cell, groups, cv)
+        ni = c08.shapes_of(dict(cell, B=B, dt=case["dt"]))[2]
+        cell["pre"] = spikes(ni)
+        cells.append(cell)
+    case["cells"] = cells
+    if trainer in MODULATED:
+        if draw(st.booleans()):
+            for c in cells:
+                c["reduction"] = "sum"
+                if "reduction" not in c["override"] and cv["reduction"] != "sum":
+                    c["override"] = c["override"] + ["reduction"]
+            case["signal"] = [[draw(st.sampled_from(_SIG)) for _ in range(B)] for _ in range(T)]
+        else:
+            case["signal"] = [draw(st.sampled_from(_SIG)) for _ in range(T)]
+        case["scale"] = draw(st.sampled_from([1.0, 1.0, 0.5, 2.0, -0.5]))
+    case["called"] = [True] * T
+    ukind = draw(st.sampled_from(["every", "end", "some"]))
+    case["update"] = ([True] * T if ukind == "every" else [False] * T if ukind == "end"
+                      else [draw(st.booleans()) for _ in range(T)])
     return case
 
 
@@ -666,6 +922,18 @@ LEGS = [
              "update being negated is non-zero; rate: always (rates strictly above / below target)",
     ),
 ]
+
+LEGS.append(Leg(
+    name="multi",
+    run=run_multi,
+    strategy=lambda tier: multi_case(tier),
+    quick=160, thorough=1500, quick_shards=6, thorough_shards=16, nt_floor=0.25,
+    rule="ONE trainer (any of the 14), constructed with one set of hyper-parameters, trains two cells "
+         "(two connections onto one neuron group) registered with different overrides; all split checks "
+         "(parts vs documented values where owned, non-negativity, sign-mode routing, bound routing, applied "
+         "change) are evaluated per cell with the cell's own values. Non-trivial: the cells differ in an "
+         "effective hyper-parameter and both hand over a non-zero part",
+))
 
 ASSUMPTIONS = [
     "same cells, histories, delays and tolerances as C08; one trainer per cell (two trainers with differently "
